@@ -310,6 +310,29 @@ func IteInt(c bool, a, b int) int {
 }
 func Debug(tag string, v any) {}
 
-func StubBool() bool          { panic(divergence{"engine-only stub executed natively"}) }
-func StubU64() uint64         { panic(divergence{"engine-only stub executed natively"}) }
-func StubBytes(n int) []byte  { panic(divergence{"engine-only stub executed natively"}) }
+// Stub draws are consumed natively only by stubs that run natively too
+// (functions of /repo hooked through generated overlays); stubs of third-party
+// functions are engine-only and their draws are skipped by next().
+func nextStub(kind string) draw {
+	load()
+	if pos >= len(mdl.Draws) {
+		panic(divergence{"model exhausted at a stub draw"})
+	}
+	d := mdl.Draws[pos]
+	if !d.S || d.K != kind {
+		panic(divergence{fmt.Sprintf("draw %d: stub wants %q, model has %q (stub=%v)", pos, kind, d.K, d.S)})
+	}
+	pos++
+	return d
+}
+
+func StubBool() bool  { return nextStub("bool").V != 0 }
+func StubU64() uint64 { return nextStub("u64").V }
+func StubBytes(n int) []byte {
+	d := nextStub("bytes")
+	b := make([]byte, len(d.Vs))
+	for i := range b {
+		b[i] = byte(d.Vs[i])
+	}
+	return b
+}
